@@ -1,5 +1,93 @@
-(* C13 — property theorems only. *)
-From Yv Require Import Common.Base C13.Model C13.Spec C13.Proofs.
+(* C13 — property theorems only.  Each is closed by [exact] of a lemma; the
+   driver pins the statements with [Check] and prints the assumptions. *)
+From Yv Require Import Common.Base C13.Model C13.Spec C13.Run C13.Proofs C13.ProofsRun C13.ProofsLedger.
 
-Theorem ref_run_empty : ref_run [] = rstate0.
-Proof. exact ref_run_nil. Qed.
+(* the protocol invariant holds in every reachable state *)
+Theorem protocol_invariant :
+  forall p ls s, run (init p) ls = Some s -> Inv s.
+Proof. exact reach_inv. Qed.
+
+(* while the parent is about to block or blocked in select, a child exit that
+   wait would report is never unnoticed: SIGCHLD is pending or caught *)
+Theorem no_lost_sigchld :
+  forall p ls s m t c, run (init p) ls = Some s -> at_ s = PWait m t c ->
+    (m = SEnter \/ m = SBlocked) -> has_news (kn s) t ->
+    pending (kn s) = true \/ 0 < caught (kn s).
+Proof. exact no_lost_sigchld_lemma. Qed.
+
+(* no deadlock: until the shell has exited, some process can take a step *)
+Theorem progress :
+  forall p ls s, run (init p) ls = Some s -> final s = false -> exists l, step s l <> None.
+Proof. exact progress_lemma. Qed.
+
+(* wait_for_subshell_to_finish never gets ECHILD (the `expect` cannot fail) *)
+Theorem never_panics :
+  forall p ls s, run (init p) ls = Some s -> at_ s <> PPanic.
+Proof. exact never_panics_lemma. Qed.
+
+(* every schedule is finite *)
+Theorem terminates_under_every_schedule :
+  forall p ls s, run (init p) ls = Some s -> length ls <= run_bound p.
+Proof. exact terminates_lemma. Qed.
+
+(* wait reports the exit of a child at most once, and exactly once for a
+   child in state Reaped *)
+Theorem reaped_exactly_once :
+  forall p ls s c, run (init p) ls = Some s -> In c (kids (kn s)) ->
+    reaps c = match cs c with Reaped => 1 | _ => 0 end.
+Proof. exact reaped_once_lemma. Qed.
+
+(* when the shell exits, a child that is not reaped is an asynchronous job the
+   script never waited for *)
+Theorem no_zombie_at_exit :
+  forall p ls s i c, run (init p) ls = Some s -> final s = true ->
+    nth_error (kids (kn s)) i = Some c -> cs c <> Reaped -> In i (map fst (jobs s)).
+Proof. exact no_zombie_lemma. Qed.
+
+Theorem all_reaped_after_wait :
+  forall p ls s c, run (init (p ++ [CWait None])) ls = Some s -> final s = true ->
+    In c (kids (kn s)) -> cs c = Reaped /\ reaps c = 1.
+Proof. exact all_reaped_after_wait_lemma. Qed.
+
+(* $?, $! and the job list after every command are those of the sequential
+   reading of the script (pipeline = last member, rightmost failure under
+   pipefail, 127 for a process that is not a known job), for every schedule *)
+Theorem status_fidelity :
+  forall p ls s, run (init p) ls = Some s -> final s = true ->
+    trace s = r_trace (ref_run p) /\ status s = r_status (ref_run p) /\
+    lastbg s = r_lastbg (ref_run p) /\ map fst (jobs s) = map fst (r_jobs (ref_run p)).
+Proof. exact schedule_independent_lemma. Qed.
+
+Theorem schedule_independent_result :
+  forall p ls1 ls2 s1 s2,
+    run (init p) ls1 = Some s1 -> final s1 = true ->
+    run (init p) ls2 = Some s2 -> final s2 = true ->
+    trace s1 = trace s2 /\ status s1 = status s2 /\ lastbg s1 = lastbg s2.
+Proof. exact any_two_schedules_agree_lemma. Qed.
+
+(* the four deterministic schedulers of the correspondence check never run out
+   of fuel and give the reference result: the script oracle asks for exactly
+   what the model computes *)
+Theorem model_schedulers_give_reference :
+  forall p kind, model_result p kind = Some (r_trace (ref_run p), r_status (ref_run p)).
+Proof. exact model_result_is_reference. Qed.
+
+(* the kernel part of the model satisfies the ledger specification for every
+   history of fork / exit / wait / sigmask / sigaction / caught_signals: the
+   stream-K oracle is sound *)
+Theorem kernel_refines_ledger :
+  forall ops, kops_ok kern0 ops = true -> ledger_run ledger0 (model_khist kern0 ops) = None.
+Proof. exact kernel_refines_ledger_lemma. Qed.
+
+Print Assumptions protocol_invariant.
+Print Assumptions model_schedulers_give_reference.
+Print Assumptions kernel_refines_ledger.
+Print Assumptions no_lost_sigchld.
+Print Assumptions progress.
+Print Assumptions never_panics.
+Print Assumptions terminates_under_every_schedule.
+Print Assumptions reaped_exactly_once.
+Print Assumptions no_zombie_at_exit.
+Print Assumptions all_reaped_after_wait.
+Print Assumptions status_fidelity.
+Print Assumptions schedule_independent_result.
